@@ -194,7 +194,7 @@ pub fn get(prop: &str, tier: &str) -> Option<Check> {
                 Batch { name: "backlog_vs_shutdown_tcp", f: scen::robust::run_backlog_vs_shutdown, cfg: cfg(Mode::Racy, true, 0), runs: n(20_000, 500_000), real: REAL_SERVER_TCP, stub: STUB_SERVER_TCP },
                 Batch { name: "backlog_vs_shutdown_rtu", f: scen::robust::run_backlog_vs_shutdown, cfg: cfg(Mode::Racy, true, 1), runs: n(5_000, 100_000), real: REAL_SERVER_RTU, stub: STUB_SERVER_RTU },
             ],
-            assumptions: vec!["a peer that never reads is a bounded-liveness premise, not a violation (flow-control stalls are finite)", "TLS handshake phase: see C09 and the known finding on handshake deadlines"],
+            assumptions: vec!["peers that stop reading are injected by the C15 (sessions blocked writing), C13/C10 (client blocked writing), C03 and C20 scenarios rather than by the garbage workloads of this check", "a peer stalling inside the TLS handshake: scen::tls::run_handshake_stall (C15, C13 batches)"],
         },
         "C09" => Check {
             prop: "C09",
